@@ -163,6 +163,7 @@ impl Driver {
         };
         let was_ingesting = observe().ingesting.is_some();
         let stable_before = observe().stable_height;
+        let tip_before_c15 = if self.w.is_active("C15") && matches!(ev, Event::Heartbeat { .. } | Event::Deliver { .. }) { Some(self.w.best_tip()) } else { None };
         let t0 = std::time::Instant::now();
         let applied = match self.w.apply(ev) {
             Ok(a) => a,
@@ -242,7 +243,28 @@ impl Driver {
             if let Event::SetConfig(c) | Event::Upgrade { arg: Some(c) } = ev {
                 if c.lazy_fees.is_some() {
                     self.w.stats.probe("lazy_flag_flipped");
+                    self.w.eager_expected = None;
                 }
+            }
+            // "Computed when a new tip is first observed": with eager evaluation the message that
+            // makes a block the best tip also computes the percentiles for it (with the anchor as
+            // it stands at the end of that message) and they are kept until the tip changes.
+            match ev {
+                Event::Heartbeat { .. } | Event::Deliver { .. } => {
+                    let tip = self.w.best_tip();
+                    if Some(tip) != tip_before_c15 {
+                        self.w.eager_expected = None;
+                        if !self.w.lazy_fees {
+                            let win = self.w.model_fee_window(tip);
+                            if !win.is_empty() {
+                                self.w.eager_expected = Some((tip, crate::model::fee_percentiles(&win)));
+                                self.w.stats.probe("eager_tip_change_with_fees");
+                            }
+                        }
+                    }
+                }
+                Event::Quiesce => self.w.eager_expected = None,
+                _ => {}
             }
         }
         if self.w.is_active("C08") {
